@@ -95,6 +95,17 @@ def run_check(pid, tier, seed, replay=None):
             prefix = "taskset -c %s " % env["taskset"]
         ans = run_harness(exe, ["%s %s %s" % (c.cid, c.elt, c.line) for c in cs], pid, prefix=prefix)
         impl.update(ans)
+    # a case that hit the executor's watchdog is run once more, alone and with a six-fold limit, before it counts as a call
+    # that does not return (a loaded machine must not produce the verdict)
+    slow = [c for c in cases if impl.get(c.cid) is not None and any(t == "Ptimeout" for t in impl[c.cid])]
+    for c in slow[:8]:
+        env = c.meta.get("_env") or {}
+        prefix = ("taskset -c %s " % env["taskset"]) if "taskset" in env else ""
+        lim = str(6 * int(os.environ.get("VERIF_CASE_TIMEOUT", "10")))
+        try:
+            impl.update(run_harness(exe, ["%s %s %s" % (c.cid, c.elt, c.line)], pid + "retry", env={"VERIF_CASE_TIMEOUT": lim}, prefix=prefix))
+        except Exception:
+            pass
     discarded = 0
     live = []
     for c in cases:
